@@ -84,6 +84,74 @@ def mk(rng, g, star, where_kind, nrows, mode, burst):
     return sc
 
 
+def unsv(v, rng):
+    """abstract value printed by the TLA+ model -> scenario JSON (numbers as int or float64)"""
+    k = v["k"]
+    if k == "null": return None
+    if k == "num":
+        n = v["v"] // 10000
+        return n if rng.random() < 0.7 else {"$f": float(n)}
+    if k == "list": return [unsv(x, rng) for x in v["v"]]
+    if k == "map": return {a: unsv(b, rng) for a, b in v["v"].items()}
+    return v["v"]
+
+
+def path_stage(res, rng, quick):
+    """Nested paths (docs/NESTED_FIELD_ACCESS.md): spec/lib/FieldPath.tla is the definition, spec/sem/PathLaws.tla checks its laws on
+    every (document, path) pair and prints every path of up to MaxLen steps over the step alphabet (.name ['key'] ["key"] [i] [-i])
+    together with the documents; each path is a SELECT item (aliased, or un-aliased = reported under its text) and some are WHERE
+    operands; the real engine resolves them and TraceDirect judges each value with FieldPath!PResolve."""
+    sem = os.path.join(vlib.VERIF, "spec", "sem")
+    ml = 2 if quick else 3
+    cfg = "SPECIFICATION Spec\nCONSTANTS MaxLen = %d Emit = TRUE\nINVARIANTS Laws EmitPath\nCHECK_DEADLOCK FALSE\n" % ml
+    r = seqfam.model(res, sem, "PathLaws", cfg, "PathLaws", {"MaxLen": ml}, workers=1)
+    docs = json.loads(vlib.prints(r["out"], "DOCS")[0][1])
+    paths = [(json.loads(x[1]), json.loads(x[2])) for x in vlib.prints(r["out"], "PATH")]
+    if not paths:
+        raise vlib.Inconclusive("PathLaws printed no paths")
+    if not quick:
+        # all paths of up to 2 steps, and of the 3-step ones every path that leads somewhere in some document plus a sample of the dead ones
+        live = [p for p in paths if len(p[0]) < 3 or any(k != "null" for k in p[1])]
+        dead = [p for p in paths if not (len(p[0]) < 3 or any(k != "null" for k in p[1]))]
+        paths = live + rng.sample(dead, min(len(dead), 1500))
+    rng.shuffle(paths)
+    scen = []
+    per = 6
+    for i in range(0, len(paths), per):
+        chunk = paths[i:i + per]
+        items = [{"al": "id", "e": col("id")}]
+        for k, (parts, kinds) in enumerate(chunk):
+            parts = [dict(pt, dq=1) if pt["k"] == "k" and rng.random() < 0.4 else pt for pt in parts]
+            e = {"t": "path2", "c": "d", "parts": parts}
+            un = rng.random() < 0.2
+            al = sql(e) if un else "p%d" % k
+            if not any(it["al"] == al for it in items):
+                items.append({"al": al, "e": e, "unaliased": 1 if un else 0})
+        meta = {"fam": "direct", "star": 0, "chan": 0, "sel": items, "profile": "paths"}
+        txt = "SELECT " + ", ".join("id" if it["al"] == "id" else sql(it["e"]) if it.get("unaliased") else "%s AS %s" % (sql(it["e"]), it["al"]) for it in items) + " FROM stream"
+        # WHERE over a path whose value is a number or NULL in every document (an ordering comparison with another kind is C06's subject)
+        numeric = [pp for pp in chunk if all(k in ("num", "null") for k in pp[1]) and any(k == "num" for k in pp[1])]
+        if numeric and rng.random() < 0.6:
+            w = {"t": "cmp", "op": rng.choice([">", ">=", "<", "<="]), "a": {"t": "path2", "c": "d", "parts": rng.choice(numeric)[0]}, "b": num(rng.choice([1, 2, 5, 6, 10, 20]))}
+            meta["where"] = w
+            txt += " WHERE " + sql(w)
+        rows = []
+        order = [0, 1, 2, 0, 1, 2]
+        rng.shuffle(order)
+        for j, di in enumerate(order[:rng.choice([3, 4, 6])]):
+            rows.append({"id": j + 1, "d": unsv(docs[di], rng)})
+        extra = rng.choice([None, {"id": 90}, {"id": 91, "d": None}, {"id": 92, "d": 5}, {"id": 93, "d": [1, 2]}, {"id": 94, "d": "text"}])
+        if extra:
+            rows.insert(rng.randrange(len(rows) + 1), extra)
+        sc = {"meta": meta, "sql": txt, "rows": rows, "chan": False, "norename": True}
+        if i % 2: sc["mode"] = "sync"
+        scen.append(sc)
+    seqfam.run_scenarios(res, scen, "TraceDirect", tag="paths", relayout_p=0.3, retype_p=0.3)
+    res.cov["path_statements"] = len(scen)
+    res.cov["paths"] = len(paths)
+    res.notes.append("nested paths: %d paths of up to %d steps from PathLaws.tla in %d statements over its %d documents (+ rows whose d is absent / NULL / a scalar / an array), judged by FieldPath!PResolve" % (len(paths), ml, len(scen), len(docs)))
+
+
 def run(tier):
     res = vlib.Result("C05", tier)
     rng = random.Random(vlib.seed())
@@ -144,6 +212,7 @@ def run(tier):
         scen.append(sc)
     seqfam.run_scenarios(res, scen, "TraceDirect", tag="direct", relayout_p=0.3, retype_p=0.3, rename_p=0.3)
     seqfam.run_pinned(res, "TraceDirect")
+    path_stage(res, rng, quick)
     # the 1 : n projection unnest(): every element of the array column yields one result row, in element order, each row's results
     # before the next row's (TraceUnnest)
     un = []
